@@ -111,10 +111,12 @@ std::string UrlHostToString(const Url::Host &host)
 {
     std::ostringstream oss;
 
+    //! user 与 password 在 StringToUrlHost() 中会被 UrlDecode()，这里必须对应地 UrlEncode()，
+    //! 否则含有 ':' '@' '%' 等字符的内容无法还原
     if (!host.user.empty()) {
-        oss << host.user;
+        oss << UrlEncode(host.user);
         if (!host.password.empty())
-            oss << ':' << host.password;
+            oss << ':' << UrlEncode(host.password);
         oss << '@';
     }
 
@@ -145,8 +147,9 @@ std::string UrlPathToString(const Url::Path &path)
         }
     }
 
+    //! frag 在 StringToUrlPath() 中会被 UrlDecode()，这里也要 UrlEncode()
     if (!path.frag.empty())
-        oss << '#' << path.frag;
+        oss << '#' << UrlEncode(path.frag);
 
     return oss.str();
 }
